@@ -181,6 +181,7 @@ def aworldWith (methods : Fn → List AV → M AV) : World M AV where
   throw cls := throw cls
   rethrow := throw "reraise"
   catchAll body handler := tryCatch body (fun _ => handler)
+  catchCls cls body handler := tryCatch body (fun e => if e == cls then handler else throw e)
 
 /-- the world of the methods that call no other method of the artifact -/
 def aworld0 : World M AV := aworldWith fun _ _ => throw "TypeError"
